@@ -25,17 +25,30 @@ Conventions of the translation (the proofs rely on them):
     that exist before it, `self` first, then in order of definition; the body is a separate definition
     `gen_<method>_loop<k>` whose leading arguments are the variables it reads; continue / break / end of body are
     `Ok (Next ..)` / `Ok (Break ..)`; a return inside a loop is refused;
-  * `try: x = e; rest except Cls: continue|pass` is accepted only when nothing after the first statement can raise;
+  * `try: x = e; rest except Cls: continue|pass` is accepted only when `e` changes no variable and nothing after the
+    first statement can raise;
+  * lists are VALUES (`x.append(e)` is `x ++ [e]`).  Python lists are objects: when a list variable y is appended to
+    another list and ALSO changed in place (`y.append(..)`), a later in-place change would be seen through the other
+    list.  For every such y the translation carries a flag `v_al_y` (false after `y = [..]`, true after
+    `x.append(y)`, unchanged by `y = <expression over y>`), and every `y.append(..)` first tests it:
+    `if v_al_y then Err OtherError` - the runtime abstains instead of computing a wrong value.  A second name for a
+    list (`a = b`, `a = b = [..]`) and a tracked list assigned from another list are refused;
+  * a `for` target must be a new name; variables first bound inside a loop or inside one branch of an `if` are not
+    visible afterwards (a later use is refused);
   * types: attributes by name (table ATTRS), parameters by the table SIGS, locals by inference; a value taken out of
     **kwargs is a `pyval` and is tested / converted by the functions of the runtime (isinstance_*, as_int, dyn_*);
   * oracles (Section variables): `fs` path -> lines of the file, `str_int` int(str), `np_int32` the conversion of
     np.array(.., dtype=np.int32), `str_float` float(str), `mkp` Particle(format, tokens),
-    `o_apply_kwargs_filters` the method __apply_kwargs_filters (translated elsewhere: gen_dispatch), `fuel`.
-  * `np`, `Particle` are taken by name (they reach the module through `from sparkx.Filter import *`).
+    `o_apply_kwargs_filters` the method __apply_kwargs_filters (translated elsewhere: gen_dispatch), `fuel` the
+    bound of the `while` loops (whileC gives OtherError when it is exhausted);
+  * `np`, `Particle` and the builtins are taken by name: the module must contain `from sparkx.Filter import *` and
+    must not rebind them; JetscapeLoader must derive from BaseLoader only (methods are looked up in the subclass
+    first), BaseLoader from ABC only.
 Pinned textually: nothing.
 Fail-closed: every statement / expression shape that is not listed in `Tr.stmt` / `Tr.expr` raises TranslateError.
 """
 import ast
+import re
 from .core import *
 
 SRC = "src/sparkx/loader/JetscapeLoader.py"
@@ -251,6 +264,8 @@ class Tr:
         def target(t):
             if isinstance(t, ast.Name):
                 add(t.id)
+                if t.id in self.tracked:
+                    add("al_" + t.id)
             elif isinstance(t, (ast.Tuple, ast.List)):
                 for e in t.elts:
                     target(e)
@@ -280,6 +295,9 @@ class Tr:
                                     add(c.args[i].id)
                     elif m in MUTATORS:
                         add(recv)
+                        if m == "append" and len(c.args) == 1 and isinstance(c.args[0], ast.Name) \
+                                and c.args[0].id in self.tracked:
+                            add("al_" + c.args[0].id)
 
         def walk(s):
             if isinstance(s, ast.Assign):
@@ -891,10 +909,26 @@ class Tr:
                 binds = self.binds
                 return self.wrap(binds, cont(env2))
             vt, vty = self.expr(st.value, env)
+            if isinstance(st.value, ast.Name) and isinstance(vty, tuple) and vty[0] == "list":
+                self.err("a second name for a list object (lists are values here)", st)
+            if len(targets) > 1 and isinstance(vty, tuple) and vty[0] == "list":
+                self.err("a list assigned to several names (lists are values here)", st)
             text, env2 = "", env
             for tg in targets:
                 t, env2 = self.store(tg, vt, vty, env2, st)
                 text += t
+                if isinstance(tg, ast.Name) and tg.id in self.tracked:
+                    # a new list object, or one that can only be the object the name held before
+                    fresh = isinstance(st.value, ast.List)
+                    if not fresh:
+                        for nm in ast.walk(st.value):
+                            if isinstance(nm, ast.Name) and nm.id != tg.id and isinstance(env.get(nm.id), tuple) \
+                                    and env[nm.id][0] == "list":
+                                self.err(f"`{tg.id}` is appended to a list and changed in place; it may only be assigned "
+                                         "a list literal or an expression over itself", st)
+                    if fresh or "al_" + tg.id not in env2:
+                        t2, env2 = self.assign_name("al_" + tg.id, "false", "bool", env2)
+                        text += t2
             binds = self.binds
             return self.wrap(binds, text + cont(env2))
         if isinstance(st, ast.AugAssign):
@@ -933,10 +967,21 @@ class Tr:
                 lt, lty = self.expr(v.func.value, env)
                 if not (isinstance(lty, tuple) and lty[0] == "list"):
                     self.err("append on something that is not a list", st)
+                if x in self.tracked:
+                    # lists are values here: changing in place a list that sits inside another list is not modelled
+                    if "al_" + x not in env:
+                        self.err(f"`{x}` is changed in place before it is assigned", st)
+                    if self.no_raise:
+                        self.err("append to an aliased list after the first statement of a try body", st)
+                    self.read("al_" + x)
+                    self.binds.append(("bind", "_", f"if {vn('al_' + x)} then Err OtherError else Ok tt"))
                 et, ety = self.expr(v.args[0], env)
                 nty = unify(lty, ("list", ety), "append", st, self.path)
                 et = coerce(et, ety, nty[1], "append", st, self.path)
                 text, env2 = self.assign_name(x, f"({lt} ++ [{et}])%list", nty, env)
+                if isinstance(v.args[0], ast.Name) and v.args[0].id in self.tracked:
+                    t2, env2 = self.assign_name("al_" + v.args[0].id, "true", "bool", env2)
+                    text += t2
                 binds = self.binds
                 return self.wrap(binds, text + cont(env2))
             if isinstance(v, ast.Call):
@@ -1040,8 +1085,8 @@ class Tr:
             self.err("loop else not accepted", st)
         # the iterable / the test
         if is_for:
-            if not isinstance(st.target, ast.Name):
-                self.err("loop target must be a name", st)
+            if not isinstance(st.target, ast.Name) or st.target.id in env:
+                self.err("loop target must be a name that is not bound before the loop", st)
             it = st.iter
             if isinstance(it, ast.Call) and isinstance(it.func, ast.Name) and it.func.id == "range" and not it.keywords \
                     and len(it.args) in (1, 2):
@@ -1147,6 +1192,8 @@ class Tr:
         self.start(first)
         vt, vty = self.expr(first.value, env)
         binds = self.binds
+        if any(kind == "let" or not re.fullmatch(r"t\d+", p) for kind, p, _ in binds):
+            self.err("the first statement of a try body must not change a variable", first)
         m = self.wrap(binds, f"Ok {vt}")
         x = first.targets[0].id
         env2 = dict(env)
@@ -1174,6 +1221,19 @@ class Tr:
             self.err(f"{name}: {len(ptys)} argument(s) expected", f)
         self.mname, self.in_init, self.init_assigned, self.depth = name, name == "__init__", set(), 0
         self.no_raise, self.reads, self.binds, self.stmt_reads, self.cur = False, set(), [], set(), f
+        appended, receivers, names = set(), set(), set()
+        for c in ast.walk(f):
+            if isinstance(c, ast.Name):
+                names.add(c.id)
+            if isinstance(c, ast.Call) and isinstance(c.func, ast.Attribute) and c.func.attr == "append" \
+                    and isinstance(c.func.value, ast.Name):
+                receivers.add(c.func.value.id)
+                if len(c.args) == 1 and isinstance(c.args[0], ast.Name):
+                    appended.add(c.args[0].id)
+        self.tracked = appended & receivers
+        for y in self.tracked:
+            if "al_" + y in names or y in params:
+                self.err(f"alias flag of `{y}` cannot be introduced", f)
         env = {"self": "jself"}
         env.update(zip(params, ptys))
         w, files = self.ret_shape(name)
@@ -1242,6 +1302,21 @@ def collect():
     if not any(isinstance(n, ast.ImportFrom) and n.module == "sparkx.loader.BaseLoader" and n.level == 0
                and [(a.name, a.asname) for a in n.names] == [(BASE, None)] for n in tree.body):
         raise TranslateError(f"`from sparkx.loader.BaseLoader import {BASE}` not found", cls, path)
+    if not any(isinstance(n, ast.ImportFrom) and n.module == "sparkx.Filter" and n.level == 0
+               and [a.name for a in n.names] == ["*"] for n in tree.body):
+        raise TranslateError("`from sparkx.Filter import *` not found (np / Particle would resolve differently)", cls, path)
+    for n in tree.body:
+        bound = []
+        if isinstance(n, (ast.FunctionDef, ast.ClassDef, ast.AsyncFunctionDef)):
+            bound = [n.name]
+        elif isinstance(n, (ast.Import, ast.ImportFrom)):
+            bound = [(a.asname or a.name).split(".")[0] for a in n.names]
+        elif isinstance(n, ast.Expr) and isinstance(n.value, ast.Constant):
+            bound = []
+        else:
+            raise TranslateError("module-level statement not accepted", n, path)
+        if {"np", "Particle", "open", "isinstance", "len", "int", "float", "all", "range"} & set(bound):
+            raise TranslateError("a name the translation takes as given is rebound at module level", n, path)
     bcls = find_class(btree, BASE)
     if [ast.unparse(b) for b in bcls.bases] != ["ABC"]:
         raise TranslateError(f"class {BASE} must derive from ABC only", bcls, bpath)
